@@ -719,6 +719,31 @@ def _log_calls(fn: Fn, event: str):
 
 def r6(repo, chk):
     C = "quic.connection:QuicConnection."
+    # a record that was logged stays in the trace: the container is unbounded, nothing removes from it, and the document
+    # is built from all of it
+    ti = Fn(repo, "quic.logger:QuicLoggerTrace.__init__")
+    evs = [v for st, t, v in ti.assigns(chain="self._events")]
+    ok = len(evs) == 1 and isinstance(evs[0], ast.Call) and call_name(evs[0]) in ("deque", "list", "collections.deque") and not evs[0].args and not evs[0].keywords or (len(evs) == 1 and isinstance(evs[0], ast.List) and not evs[0].elts)
+    chk.ob("R6", "QuicLoggerTrace keeps its events in an unbounded container", ok, f"initialised as {[norm(v) for v in evs]}: a bounded container silently drops the oldest records, so the trace no longer has one record per packet", ti.loc(ti.node))
+    lm = repo.mod("quic.logger")
+    removers = []
+    for q in sorted(lm.functions):
+        if q.startswith("QuicLoggerTrace."):
+            g = Fn(repo, "quic.logger:" + q)
+            for c in g.calls():
+                if isinstance(c.func, ast.Attribute) and norm(c.func.value) == "self._events" and c.func.attr in ("pop", "popleft", "clear", "remove", "rotate"):
+                    removers.append(f"{q}: {norm(c)[:40]}")
+            for st, t, v in g.assigns(chain="self._events"):
+                if not q.endswith(".__init__"):
+                    removers.append(f"{q}: {norm(st)[:40]}")
+    chk.ob("R6", "nothing removes or replaces logged events", not removers, f"{removers}", "")
+    le = Fn(repo, "quic.logger:QuicLoggerTrace.log_event")
+    apps = [c for c in le.calls(name="self._events.append")]
+    ok = len(apps) == 1 and le.cfg.postdominates(le.cfg.node_of(apps[0]), le.cfg.entry)
+    chk.ob("R6", "log_event appends exactly one record on every path", ok, "", le.loc(le.node))
+    td = Fn(repo, "quic.logger:QuicLoggerTrace.to_dict")
+    ok = any("list(self._events)" in norm(st) for st in td.stmts())
+    chk.ob("R6", "to_dict exports every recorded event", ok, "", td.loc(td.node))
     ds = Fn(repo, C + "datagrams_to_send")
     sent = _log_calls(ds, "packet_sent")
     chk.ob("R6", "datagrams_to_send logs packet_sent", len(sent) == 1, f"{len(sent)} packet_sent log sites", ds.loc(ds.node))
